@@ -50,3 +50,27 @@ theorem lev_snoc_snoc (a b : List α) (x y : α) :
       rw [lev_cons_cons, h1, ihb, h3, lev_cons_cons x' a' y' (b' ++ [y]), lev_cons_cons x' (a' ++ [x]) y' b',
         lev_cons_cons x' a' y' b']
       exact min9 _ _ _ _ _ _ _ _ _ _ _
+
+/-! symmetry and length bounds of the specification distance -/
+theorem cost_comm (x y : α) : cost x y = cost y x := by
+  unfold cost; by_cases h : x = y
+  · simp [h]
+  · have : ¬ y = x := fun e => h e.symm
+    simp [h, this]
+theorem lev_symm (a b : List α) : lev a b = lev b a := by
+  fun_induction lev a b with
+  | case1 b => cases b <;> simp [lev_nil_right]
+  | case2 x a => simp [lev_nil_left]
+  | case3 x a y b ih1 ih2 ih3 =>
+    have h := lev_cons_cons y b x a
+    rw [h, ← ih1, ← ih2, ← ih3, cost_comm y x]
+    show min (min (lev a (y :: b) + 1) (lev (x :: a) b + 1)) (lev a b + cost x y) = _
+    omega
+theorem lev_bounds (a b : List α) :
+    a.length - b.length ≤ lev a b ∧ b.length - a.length ≤ lev a b ∧ lev a b ≤ max a.length b.length := by
+  fun_induction lev a b with
+  | case1 b => simp
+  | case2 x a => simp
+  | case3 x a y b ih1 ih2 ih3 =>
+    simp only [List.length_cons] at *
+    split <;> omega
